@@ -108,4 +108,42 @@ PROPS = {
             "bulk samples are 64 MiB synthetic payloads (16-byte tag + shared filler) so that 4 GiB costs memory bandwidth only",
         ],
     },
+
+    "C03": {
+        "level": "exploration",
+        "profiles": ["chk"],
+        "death_is_violation": True,
+        "exhaustive": {"quick": False, "thorough": False},
+        "min_evals": {"quick": 5000, "thorough": 50000},
+        "rule": ("files are synthesised by the independent reference encoder from a logical movie and a physical layout; the library only reads. "
+                 "Exhaustive stratum: one track of N = 0..6 (thorough 0..7) samples x every composition of N into chunks x every subset of optional "
+                 "stsc run breaks, crossed with stco/co64, fixed/varying/zero sizes, ctts absent/v0/v1, stss absent/present, split or maximal "
+                 "stts/ctts runs (6 dimension points per composition quick, all 48 thorough). Random stratum: 1-3 tracks with interleaved chunks, up to "
+                 "5000 samples, gaps, moov before/after mdat, 64-bit and size-0 mdat. For every id in 0..=N+2 (+ far beyond) sample_count, "
+                 "sample_offset and read_sample (bytes compared, start, delta, offset, sync) are compared with the model. distinct = distinct per-track "
+                 "layout shape (sample-count bucket, chunk composition for N<=6, #stsc runs, offset form, size mode, ctts/stss shape, #zero sizes); "
+                 "non-trivial = track with >= 2 samples."),
+        "assumptions": [
+            "trusted base: harness/src/refenc.rs + model.rs (reference encoder and expected answers), cross-validated by refdec.rs",
+            "version-0 ctts offsets are generated < 2^31 (the statement does not say how an unsigned offset >= 2^31 is reported)",
+        ],
+    },
+
+    "C09": {
+        "level": "exploration",
+        "profiles": ["chk"],
+        "death_is_violation": True,
+        "min_evals": {"quick": 4000, "thorough": 40000},
+        "rule": ("fragmented movies are synthesised by the reference encoder: 1-6 fragments, 1-3 tracks, 1-3 track fragments per movie fragment "
+                 "(also two of the same track), 0-40 samples per run, base-data-offset explicit / default-base-is-moof / neither, tfhd default duration "
+                 "or not, per-sample durations or not, composition offsets or not, tfdt v0/v1 (values beyond 2^32), data_offset absent / positive / "
+                 "negative, trex defaults, optional styp/mehd; exhaustive over the 3 x 2^6 flag lattice for 1-2 fragments x 0-2 samples. Each movie is "
+                 "read both as one stream and as init segment + media segment (read_fragment_header) and every sample's offset, bytes, start time, "
+                 "duration and composition offset is compared with the model. distinct = distinct run shapes (fragment index class, base mode, the "
+                 "five flags, offset sign, run-length class, trex default present); non-trivial = run with >= 2 samples or in a later fragment."),
+        "assumptions": [
+            "one run per track fragment, per-sample sizes and a decode-time box always present (as the statement requires); sync flags are not compared",
+            "random mode gives all tracks the same trex defaults (known finding K2); a directed probe exercises K2 every run",
+        ],
+    },
 }
